@@ -148,11 +148,15 @@ def parallel_fault_scenario(job: dict[str, Any]) -> dict[str, Any]:
         shutil.rmtree(root, ignore_errors=True)
         return out
     par.write_program(src, shape, job["edit"], 1100)
-    rf = par.run_parallel(src, cache_dir=cache, n=n, gate=gate, store=store, worker_fault=job["fault"])
+    if job["fault"].startswith("coord:"):
+        rf = par.run_parallel(src, cache_dir=cache, n=n, gate=gate, store=store, coord_kill_msgs=int(job["fault"].split(":")[1]))
+    else:
+        rf = par.run_parallel(src, cache_dir=cache, n=n, gate=gate, store=store, worker_fault=job["fault"])
     out["runs"] += 1
     out["killed"] = bool([f for f in os.listdir(gate) if f.startswith("killed.")]) if os.path.isdir(gate) else False
+    out["killed"] = out["killed"] or bool(rf.get("coordinator_killed"))
     out["faulted_status"] = rf.get("status")
-    if job["fault"].split(":")[1] == "fail" and not rf.get("crash") and not rf.get("machinery"):
+    if job["fault"].split(":")[1:2] == ["fail"] and not rf.get("crash") and not rf.get("machinery"):
         ref = par.run_sequential(src, cache_dir=None)
         if W.norm(rf) != W.norm(ref):
             out["violations"].append({"step": "faulted", "what": "parallel run with a failed write in a worker reports differently from the sequential build: "
@@ -274,6 +278,8 @@ def main(argv: list[str]) -> int:
                           "fault": "%d:kill:%d" % (ordinal, k)})
     for i in (range(1, 5) if tier == "quick" else range(1, 9)):
         pjobs.append({"store": "fs" if i % 2 else "sqlite", "n": 2, "shape": "diamond", "edit": {1: 1}, "edit2": {2: 1}, "fault": "0:fail:%d" % i})
+    for k in (range(1, 7) if tier == "quick" else range(1, 13)):
+        pjobs.append({"store": "fs" if k % 2 else "sqlite", "n": 2, "shape": "diamond", "edit": {1: 1}, "edit2": {1: 1, 3: 1}, "fault": "coord:%d" % k})
     presults = []
     with ProcessPoolExecutor(5) as pex:
         for res in pex.map(parallel_fault_scenario, pjobs, chunksize=1):
